@@ -1,5 +1,6 @@
 // Prelude of the generated Verus file (Engine V). Everything in this file is an ASSUMED contract on a
 // dependency (std) or a trusted stand-in; each item is listed as an assumption in the evidence.
+#![feature(pattern)]
 #![allow(unused_imports, unused_variables, unused_mut, dead_code, unused_assignments, unreachable_patterns)]
 use vstd::prelude::*;
 use std::str::FromStr;
@@ -16,6 +17,13 @@ pub assume_specification<T>[ <Box<T> as From<T>>::from ](t: T) -> (r: Box<T>)
 pub broadcast proof fn axiom_to_string_of_string(s: &String, res: String)
     ensures #[trigger] vstd::string::to_string_from_display_ensures::<String>(s, res) ==> res@ == s@
 {}
+
+#[verifier::external_trait_specification]
+pub trait ExPattern: Sized {
+    type ExternalTraitSpecificationFor: core::str::pattern::Pattern;
+}
+
+pub assume_specification<P: core::str::pattern::Pattern>[ str::starts_with::<P> ](s: &str, pat: P) -> (r: bool);
 
 pub assume_specification[ str::to_lowercase ](s: &str) -> (r: String);
 
